@@ -673,10 +673,10 @@ func TestVF_C15_Failover(t *testing.T) {
 
 type c15ExpiryCase struct {
 	Store     string `json:"store"`
-	SessionMs int32 `json:"session_ms"`
-	IdleMs    int64 `json:"idle_ms"`
-	PreIdleMs int64 `json:"pre_failover_idle_ms"`
-	Members   int   `json:"members"`
+	SessionMs int32  `json:"session_ms"`
+	IdleMs    int64  `json:"idle_ms"`
+	PreIdleMs int64  `json:"pre_failover_idle_ms"`
+	Members   int    `json:"members"`
 }
 
 func c15RunExpiry(t *testing.T, c c15ExpiryCase) (violation, harnessErr string) {
